@@ -18,7 +18,7 @@ type IOState struct {
 
 var readOnlyKinds = map[string]bool{"get": true, "geti": true, "exist": true, "min": true, "max": true, "tot": true,
 	"evict": true, "reopen": true, "snap": true, "names": true, "asc": true, "desc": true, "ascx": true, "descx": true,
-	"itasc": true, "itdesc": true, "nasc": true, "ndesc": true, "nit": true, "junk": true, "copyto": true, "itx": true, "vall": true, "len": true, "close": true, "blk": true, "rnd": true, "coll": true, "rmcoll": true}
+	"itasc": true, "itdesc": true, "nasc": true, "ndesc": true, "nit": true, "junk": true, "copyto": true, "copyfail": true, "itx": true, "vall": true, "len": true, "close": true, "blk": true, "rnd": true, "coll": true, "rmcoll": true}
 
 // key-only calls: must never read a byte of any item's value (C19)
 func keyOnly(op Op) bool {
@@ -44,13 +44,24 @@ func isRootRecord(b []byte) bool {
 
 // checkIO inspects the file calls made by one API call (C09, C19).
 func (st *IOState) checkIO(op Op, obs string, evs []IOEvent, writable bool) *Mismatch {
+	if (op.K == "reopen" || op.K == "junk") && obs == "ok" && writable {
+		// the store now ends at the last root record: whatever was written beyond it (Collection.Write,
+		// a failed Flush) is dead and its space will be written again
+		var keep [][2]int64
+		for _, r := range st.ValRanges {
+			if r[1] <= st.DurableEnd {
+				keep = append(keep, r)
+			}
+		}
+		st.ValRanges = keep
+	}
 	var pendingItem *IOEvent
 	for idx := range evs {
 		e := evs[idx]
 		switch e.Kind {
 		case 'W':
 			st.Writes++
-			if e.Label != "flush" || !writable {
+			if (e.Label != "flush" && e.Label != "cwrite") || !writable {
 				return &Mismatch{Kind: "write-outside-flush", Expected: "only Flush on the writable store writes to the file", Observed: fmt.Sprintf("WriteAt(off=%d,len=%d) during %q", e.Off, e.Len, e.Label)}
 			}
 			if e.Off < st.DurableEnd {
@@ -87,7 +98,7 @@ func (st *IOState) checkIO(op Op, obs string, evs []IOEvent, writable bool) *Mis
 					pendingItem = &ev
 				}
 			}
-			if isRootRecord(e.Data) && obs == "ok" {
+			if isRootRecord(e.Data) && obs == "ok" && e.Label == "flush" {
 				st.DurableEnd = e.Off + int64(e.Len)
 			}
 		case 'T':
